@@ -36,7 +36,7 @@ def run(ck):
     streams = []
     def good(): return frame([b for m in [upmsg([r.range(1, 255) for _ in range(r.below(4))], r.below(256), r.choice([0x82, 0x84, 0x85, 0x95]), [r.below(256) for _ in range(r.range(1, 6))])] for b in m])
     for _ in range(400 if quick else 20000):
-        k = r.below(12); s = []
+        k = r.below(14); s = []
         if k == 0: s = [0xFE] + [r.below(254) for _ in range(r.range(257, 700))] + [0xFE]                 # oversized packet
         elif k == 1: p = [0] * r.range(1, 5); s = frame(p)                                                 # length byte 0
         elif k == 2: p = [r.range(5, 255)] + [r.below(256) for _ in range(r.range(0, 3))]; s = frame(p)     # announces more than present
@@ -45,6 +45,10 @@ def run(ck):
         elif k == 5: p = [2, 0, 5]; s = frame(p)                                                           # header cut
         elif k == 6: p = [3, 1, 0, 5]; s = frame(p)
         elif k == 7: s = [r.below(256) for _ in range(r.range(1, 400))]                                    # noise
+        elif k in (12, 13):
+            # a well-formed message followed by one whose length byte reaches far beyond the packet / the 256-byte buffer
+            g = upmsg([r.range(1, 255) for _ in range(r.below(3))], r.below(256), 0x82, [r.below(256) for _ in range(r.range(1, 200 if k == 13 else 6))])
+            p = g + [r.choice([0xFF, 0xFE, 0xF0, 0x80, 250 - len(g) + r.range(0, 12)]) & 0xFF] + [r.below(256) for _ in range(r.range(0, 6))]; s = frame(p[:255])
         elif k == 8: s = good(); i = r.range(0, len(s) - 1); s[i] ^= 1 << r.below(8)
         elif k == 9: s = good()[:r.range(1, 8)]
         elif k == 10:
